@@ -226,10 +226,31 @@ def w_align(ctx, rng, i):
     if warp:
         if kind == "ThinPlateSplines":
             s, tg = tx.tps_pair(rng, n=max(5, min(n, 14)))
+            if rng.random() < 0.25:
+                # two surveys of one site in map coordinates: far from the origin, a few units apart, a small non-rigid residual
+                unit = 10.0 ** rng.uniform(3.5, 5.2)
+                sp_ = s.points * unit / tx.BOX + (rng.uniform(1, 5, 2) * unit if rng.random() < 0.5 else 0.0)
+                s = ms.PointCloud(sp_)
+                tg = ms.PointCloud(sp_ + rng.uniform(-8, 8, 2) + rng.normal(scale=10.0 ** rng.uniform(-1.5, 0.3), size=sp_.shape))
+                opts["unit"] = "map"
             k = int(rng.integers(0, 3))
             kern = [None, R2LogR2RBF(s.points.copy()), R2LogRRBF(s.points.copy())][k]
             t = mt.ThinPlateSplines(s, tg, kernel=kern, min_singular_val=[1e-4, 1e-6][rng.integers(0, 2)])
-            opts = {"kernel": type(kern).__name__}
+            opts = dict(opts, kernel=type(kern).__name__)
+            if opts.get("unit") == "map":
+                # (far from the origin the spline system has a singular value below the documented floor, so the construction
+                # monitor does not demand exact interpolation: the spline is compared with the reference solution that applies the
+                # same documented cut - which does interpolate to ~1e-12 x unit on the unchanged tree)
+                from vf import refmap
+                ref_ = refmap.reference_apply(t, np.asarray(s.points, dtype=float))
+                got_ = np.asarray(t.apply(np.asarray(s.points, dtype=float).copy()))
+                ctx.tap("map_unit_spline_vs_reference", "calls")
+                if ref_ is not None:
+                    ctx.tap("map_unit_spline_vs_reference", "checked")
+                    e_ = tx.maxdiff(got_, ref_[0])
+                    ctx.err("map_unit_spline_vs_reference_rel", e_ / unit)
+                    if not (e_ <= 1e-8 * unit):
+                        ctx.fail("spline_does_not_send_source_landmarks_onto_target_landmarks", cls="ThinPlateSplines", mech="map_coordinates:differs_from_the_reference_solution", err=e_, unit=unit)
         else:
             s, tg = tx.pwa_pair(rng)
             cls = CachedPWA if kind == "PiecewiseAffine" else PythonPWA
